@@ -163,6 +163,7 @@ static int ro_is_failure(const char *name, long long r)
     static const char *neg[] = { "sb", "st", "sv", "so", "sS", "su", "tv", "tov", "tS", "rs", "jp", 0 };   /* int: 0 ok, else failure */
     static const char *zero[] = { "ss", "ta", "to", "xv", "xo", "aS", "xu", "uf", "es", "et", "ev", "eo", "eS", "eu", "eb", "cb", "cs", "cS", "cv", "emb", "cln", 0 };
     int k;
+    if (!strcmp(name, "pj")) return r < 0 || r >= 1000000;   /* init failed / printer error code set */
     for (k = 0; neg[k]; ++k) if (!strcmp(name, neg[k])) return r != 0;
     for (k = 0; zero[k]; ++k) if (!strcmp(name, zero[k])) return r == 0;
     return 0;
@@ -260,7 +261,7 @@ static int ro_op(ro_ctx_t *c, size_t i, char *tok)
         if (q) for (k = 0; k < cnt; ++k) q[k] = u[k];
         r = q != 0;
     }
-    else if (IS("eu")) { flatcc_builder_union_vec_ref_t uv = flatcc_builder_end_union_vector(B); r = uv.value; c->res2[i] = uv.type; }
+    else if (IS("eu")) { flatcc_builder_union_vec_ref_t uv = flatcc_builder_end_union_vector(B); r = (uv.value && uv.type) ? uv.value : 0; c->res2[i] = uv.type; }
     else if (IS("emb")) { n = hx_decode(A(2), &d); r = flatcc_builder_embed_buffer(B, (uint16_t)atoi(A(1)), d, n, (uint16_t)atoi(A(3)), (flatcc_builder_buffer_flags_t)atoi(A(4))); }
     else if (IS("jp")) {
         /* generated JSON parser of gen/c14_schema.fbs; input copied to a zero padded block (C04's one byte over-reads are not C14's subject) */
